@@ -283,10 +283,10 @@ macro_rules! typed_access_panicking {
     };
 }
 
-fn access_panicking(m: &mut ArgMatches, acc: Acc, id: &str, ty: Ty) -> Got {
+fn access_panicking(m: &mut ArgMatches, acc: Acc, id: &str, ty: Ty) -> Result<Got, PanicInfo> {
     if acc == Acc::Clear {
         // there is no panicking variant of try_clear_id
-        return access(m, acc, id, ty);
+        return Ok(access(m, acc, id, ty));
     }
     let r = catch(|| match acc {
         Acc::GetRaw => match m.get_raw(id) {
@@ -310,15 +310,15 @@ fn access_panicking(m: &mut ArgMatches, acc: Acc, id: &str, ty: Ty) -> Got {
         },
     });
     match r {
-        Ok(g) => g,
+        Ok(g) => Ok(g),
         Err(p) => {
             if p.msg.contains("Could not downcast") {
-                Got::Err("Downcast")
+                Ok(Got::Err("Downcast"))
             } else if p.msg.contains("Unknown argument or group id") || p.msg.contains("is not a valid argument or group ID") {
-                Got::Err("UnknownArgument")
+                Ok(Got::Err("UnknownArgument"))
             } else {
                 // any other panic belongs to the code under simulation
-                std::panic::panic_any(format!("{} at {}", p.msg, p.loc))
+                Err(p)
             }
         }
     }
@@ -751,7 +751,13 @@ fn exec_access(sc: &C04Sc, log: &mut Log, out: &mut Outcome) {
         let group_before = if op.id == IdSel::Group { Some(group_ids(target, &id)) } else { None };
         let got = if op.panicking {
             out.count("op.access_through_panicking_api");
-            access_panicking(target, op.acc, &id, ask)
+            match access_panicking(target, op.acc, &id, ask) {
+                Ok(g) => g,
+                Err(p) => {
+                    out.violate("panic", short_file(&p), format!("op {i}: {:?}<{ask:?}>({id:?}) through the panicking API: {} at {}", op.acc, p.msg, p.loc));
+                    return;
+                }
+            }
         } else {
             access(target, op.acc, &id, ask)
         };
